@@ -109,7 +109,7 @@ CLAIMS = {
         design_ref="DESIGN.md section 4 C05, E6"),
     "C07": dict(
         technique="tolerant normal-form comparison of sizing formulas; provenance of geometry arguments; effect analysis",
-        text="Formula/determinism part only: the three sizing computations are compared in normal form (floats to 1e-12 relative) "
+        text="Formula/determinism part only: the three sizing computations are compared in normal form (float constants exactly: the documented divisor 0.4804530139182 is not ln(2)**2) "
              "with the formulas quoted in the property (Bloom bits/hashes incl. float32 narrowing and the zero-hash rejection; "
              "count-min width/depth on every constructor path that keeps the caller's accuracy pair; cuckoo fingerprint bits and its inverse); they have no write effect and call only pure "
              "functions; every write of the Bloom geometry goes through _set_values with arguments originating from "
